@@ -2,6 +2,7 @@ import BigtoolsModel.Compat
 import BigtoolsModel.TextCodec
 import BigtoolsModel.Props.C01
 import BigtoolsModel.Props.C02
+import BigtoolsModel.OverlapsGen
 /-! # C16 — command-line conversions round-trip records for any thread count and flag style
 
 What is proved here is the decision logic in front of the converters: the UCSC-style argument rewriting
@@ -88,3 +89,13 @@ theorem bedgraph_line_text_roundtrip (r : TXT.Rec) (h : ∀ c ∈ r.chrom, c ≠
 theorem decimal_roundtrip (n : Nat) : TXT.parseNat (TXT.digits n) = some n := TXT.parseNat_digits n
 
 end Props.C16
+
+namespace RT
+
+/-- **The code's own index-pruning predicate.** `Gen.overlaps` (regenerated from `overlaps` and the functions it calls in
+    bbiread.rs on every run) is, for all arguments, the `ov` with which the search theorems are stated; the converters read every record (and every restricted range) through that index. -/
+theorem C16_source_overlaps_is_the_models_ov (q qs qe b1 b1s b2 b2e : Nat) :
+    Gen.overlaps q qs qe b1 b1s b2 b2e = ov ⟨q, qs⟩ ⟨q, qe⟩ ⟨b1, b1s⟩ ⟨b2, b2e⟩ :=
+  gen_overlaps_eq_ov q qs qe b1 b1s b2 b2e
+
+end RT
